@@ -107,6 +107,8 @@ def mk(**kw):
         d["pre"] = d["vl"]
     if d["act"] == "206":
         d["uob"] = min(d["uob"], d["vl"])
+    if d["ch"] and d["al"] // d["ch"] > 3000:
+        d["ch"] = 0          # tens of thousands of tiny chunks only slow the stubs down
     return fmt(d)
 
 
